@@ -290,13 +290,14 @@ class Interp(Engine):
                 return self.rd_field(obj, attr, ft)
             cf = self.reg.class_file(obj.cls)
             if cf:
-                getter = self.repo.property_getter(cf, obj.cls, attr)
+                scls = self.reg.source_class(obj.cls)
+                getter = self.repo.property_getter(cf, scls, attr)
                 if getter:
-                    res = self.repo.find_method(cf, obj.cls, getter)
+                    res = self.repo.find_method(cf, scls, getter)
                     if res:
                         fv = FuncV(res[0], res[1], res[2], obj)
                         return self.call(fv, [], {}, None)
-                res = self.repo.find_method(cf, obj.cls, attr)
+                res = self.repo.find_method(cf, scls, attr)
                 if res:
                     deco = [d.id for d in res[2].decorator_list if isinstance(d, ast.Name)]
                     if "staticmethod" in deco:
@@ -304,7 +305,7 @@ class Interp(Engine):
                     if "classmethod" in deco:
                         return FuncV(res[0], res[1], res[2], ClassV(cf, obj.cls))
                     return FuncV(res[0], res[1], res[2], obj)
-                ca = self.repo.class_attr(cf, obj.cls, attr)
+                ca = self.repo.class_attr(cf, scls, attr)
                 if ca:
                     fr = Frame(ca[0], obj.cls, "<class>", {})
                     self.frames.append(fr)
@@ -1054,7 +1055,8 @@ class Interp(Engine):
             if which == "normal":
                 res = None
                 if c.returns is not None:
-                    res = self.fresh_val_post("res_" + fv.qual.replace(".", "_"), c.returns)
+                    rt = c.returns if isinstance(c.returns, Ty) else c.returns(self, env)
+                    res = self.fresh_val_post("res_" + fv.qual.replace(".", "_"), rt)
                 env["result"] = res
                 self.assuming += 1
                 try:
